@@ -31,7 +31,7 @@ def probe_frames():
     return init, rep[len(init):]
 
 
-def context_facts(repo, tree, npi, vt):
+def context_facts(repo, tree, npi, vt, ctx_tree=None):
     """which frame validate_types resolves forward references in: the walk of `_get_context_of_caller` (start depth, the tests that
     make a frame internal, the code objects handed in by new_post_init), the default of a user call of validate_types(), the merge
     order of the context dict, and the shape of get_context itself"""
@@ -84,6 +84,9 @@ def context_facts(repo, tree, npi, vt):
              'any((value is instance for value in frame.f_locals.values()))': 'holds_instance'}
     for d in disj:
         tests.append(names.get(ast.unparse(d), 'other:' + ast.unparse(d)))
+    # the disjuncts of an `or` chain of side-effect-free tests: their order does not matter (the model asks `contains`), emit a fixed one
+    canon_order = ['code_in_skip', 'module_is_dataclasses', 'holds_instance']
+    tests = [t for t in canon_order if t in tests] + [t for t in tests if t not in canon_order]
     r = body[2].value
     if not isinstance(r, ast.Dict) or any(k is not None for k in r.keys): raise Skip('_get_context_of_caller: return not understood')
     hmerge = [ast.unparse(v).replace('frame.f_', '') for v in r.values]
@@ -102,7 +105,7 @@ def context_facts(repo, tree, npi, vt):
         elif k is not None and ast.unparse(k) == 'self.__class__.__name__' and tx == 'self.__class__': order.append('own')
         else: order.append('other:' + tx)
     # get_context itself
-    g = find_func(ast.parse(src(repo, REL_CTX)), 'get_context')
+    g = find_func(ctx_tree if ctx_tree is not None else ast.parse(src(repo, REL_CTX)), 'get_context')
     mode = 'none'
     for n in ast.walk(g):
         if isinstance(n, ast.While) and 'increase_depth_if_name_matches' in ast.unparse(n.test) and \
@@ -121,7 +124,8 @@ def context_facts(repo, tree, npi, vt):
 
 
 def gen_typesafe(repo):
-    tree = ast.parse(src(repo, REL))
+    from gen.frozen_ir import canonical_trees
+    tree, ctx_tree = canonical_trees(repo)   # locals renamed to the names looked for below (by role): a pure renaming changes nothing
     deco = find_func(tree, 'decorator')
     vt = find_func(tree, 'validate_types')
     npi = find_func(tree, 'new_post_init')
@@ -135,7 +139,8 @@ def gen_typesafe(repo):
     loop = loops[0]
     iter_txt = ast.unparse(loop.iter)
     props_assign = [s for s in vt.body if isinstance(s, ast.Assign) and isinstance(s.targets[0], ast.Name) and s.targets[0].id == 'props']
-    over_all_fields = iter_txt == 'props' and len(props_assign) == 1 and ast.unparse(props_assign[0].value) in ('fields(new_class)', 'fields(self)')
+    ALL_FIELDS = ('fields(new_class)', 'fields(self)', 'fields(cls_)', 'fields(type(self))', 'fields(self.__class__)')
+    over_all_fields = (iter_txt == 'props' and len(props_assign) == 1 and ast.unparse(props_assign[0].value) in ALL_FIELDS) or iter_txt in ALL_FIELDS
     early = any(isinstance(n, (ast.Break, ast.Return, ast.Continue)) for n in ast.walk(loop)) or bool(loop.orelse)
     in_try = any(isinstance(n, ast.Try) for n in ast.walk(vt))
     calls = [n for n in ast.walk(loop) if isinstance(n, ast.Call) and isinstance(n.func, ast.Name) and n.func.id == 'assert_value_matches_type']
@@ -170,11 +175,14 @@ def gen_typesafe(repo):
     cw_ret = [s for s in cw.body if isinstance(s, ast.Return)]
     copy_is_replace = bool(cw_ret) and ast.unparse(cw_ret[-1].value) == 'replace(self, **kwargs)'
     dcw_ret = [s for s in dcw.body if isinstance(s, ast.Return)]
-    deep_calls_ctor = bool(dcw_ret) and ast.unparse(dcw_ret[-1].value) in ('type(self)(**{**current_values, **kwargs})', 'self.__class__(**{**current_values, **kwargs})')
+    # … a call of the instance's class with one `**<dict>` argument (the dict written in place or bound to a name first)
+    rv = dcw_ret[-1].value if dcw_ret else None
+    deep_calls_ctor = (isinstance(rv, ast.Call) and ast.unparse(rv.func) in ('type(self)', 'self.__class__') and not rv.args
+                       and len(rv.keywords) == 1 and rv.keywords[0].arg is None)
     shortcut = find_func(tree, 'frozen_type_safe_dataclass')
     shortcut_ok = 'frozen_dataclass(type_safe=True)(cls)' in ast.unparse(shortcut)
 
-    cf = context_facts(repo, tree, npi, vt)
+    cf = context_facts(repo, tree, npi, vt, ctx_tree)
     init_frames, replace_frames = probe_frames()
 
     L = [HEADER.format(rel=REL), 'namespace PedVerif.Gen.TypeSafe\n']
